@@ -314,7 +314,7 @@ def audit_sources():
     return problems
 
 
-def check_props(prop):
+def check_props(prop, tier="quick"):
     """Re-checks Props/<prop>.v (always recompiled) and everything it depends on.
     Returns dict(obligations, discharged, theorems, assumptions, ok, log, problems)."""
     vfile = os.path.join(COQ, "Props", prop + ".v")
@@ -351,6 +351,25 @@ def check_props(prop):
         m = re.search(r'File "([^"]+)", line (\d+)[^\n]*\n(Error:[^\n]*(\n[^\n]+){0,6})', log)
         problems.append("proof build failed: " + (m.group(0)[:600] if m else log[-600:]))
     problems += audit_sources()
+    coqchk = None
+    if ok and tier == "thorough":
+        # the independent checker re-checks the compiled property file and everything it depends on
+        q = sh(["coqchk", "-silent", "-o", "-Q", COQ, "JaqV", "JaqV.Props." + prop], cwd=COQ, check=False, timeout=3000)
+        out = q.stdout
+        coqchk = dict(status=q.returncode, axioms=[], tail=out[-400:])
+        if q.returncode != 0:
+            problems.append("coqchk rejects Props/%s.vo: %s" % (prop, out[-400:]))
+        else:
+            m = re.search(r"\* Axioms:(.*?)\n\s*\n\* ", out, re.S)
+            names = [x.strip() for x in (m.group(1).split("\n") if m else []) if x.strip() and x.strip() != "<none>"]
+            coqchk["axioms"] = names
+            for a in names:
+                if a.split(".")[-1] not in ALLOWED_AXIOMS and a not in ALLOWED_AXIOMS:
+                    problems.append("coqchk: %s relies on the axiom %s" % (prop, a))
+            for flag in ("type-in-type", "unsafe (co)fixpoints", "positivity is assumed"):
+                mm = re.search(re.escape(flag) + r":\s*(.*)", out)
+                if mm and "<none>" not in mm.group(1):
+                    problems.append("coqchk: %s: %s" % (flag, mm.group(1)[:100]))
     discharged = len(theorems) if ok and not problems else 0
     if ok and problems:
         # theorems compiled but audit complains: count those not implicated
@@ -362,7 +381,7 @@ def check_props(prop):
         if all(pr.startswith("theorem ") for pr in problems):
             discharged = len(theorems) - len(bad)
     return dict(obligations=len(theorems), discharged=discharged, theorems=theorems, assumptions=assumptions,
-                ok=ok and not problems, log=log, problems=problems, wall_s=time.time() - t0)
+                ok=ok and not problems, log=log, problems=problems, wall_s=time.time() - t0, coqchk=coqchk)
 
 
 # --------------------------------------------------------------------------------------------
